@@ -2045,6 +2045,7 @@ fn main() {
 						run.count("chain_compaction_reorg_scenarios_with_effective_compaction", 1);
 					}
 					run.count("chain_compaction_reorg_old_outputs_whose_sibling_was_pruned_before", st.half_pairs_spent as u64);
+					run.count("chain_compaction_reorg_followers_brought_up_from_the_state_archive", st.follower_state_syncs);
 					run.eval(&format!("chain;compaction_reorg;depth={};pairs={}", depth, st.pairs_spent), true);
 				}
 				Ok(Err((clause, what, replay))) => {
